@@ -514,10 +514,13 @@ where
         let core_req = proto_convert::to_core_read_req(proto_req);
 
         // Fast path: Eventual/LeaseRead → ReadHandle (ReadActor + cmd_tx fallback).
+        // Only when the server lets clients choose the policy; otherwise the Raft loop
+        // serves the read under the server's default policy.
         {
             use d_engine_core::client::ClientApiError;
             use d_engine_core::config::ReadConsistencyPolicy;
-            if let Some(ref policy) = core_req.consistency_policy
+            if self.node_config.raft.read_consistency.allow_client_override
+                && let Some(ref policy) = core_req.consistency_policy
                 && matches!(
                     policy,
                     ReadConsistencyPolicy::EventualConsistency | ReadConsistencyPolicy::LeaseRead
